@@ -266,6 +266,7 @@ class Context:
     def call(
         __self,  # noqa: B902
         __obj: t.Callable[..., t.Any],
+        /,
         *args: t.Any,
         **kwargs: t.Any,
     ) -> t.Union[t.Any, "Undefined"]:
